@@ -214,6 +214,27 @@ def main():
         cases.append(c)
         stats['by_position'][pos] = stats['by_position'].get(pos, 0) + 1
         stats['depths'][depth] = stats['depths'].get(depth, 0) + 1
+    # comparisons between numbers that are close together but different (the comparison tier gives
+    # the ordinary logical value: `==` is equality, not closeness), in value and in condition
+    # positions
+    near = [(3000000000.5, 3000000001.5), (6000000000, 6000000001), (1000000.25, 1000000.5),
+            (123456789.0, 123456789.125), (0.1, 0.1000000001), (100, 100.0000001), (5, 5.0), (0.5, 0.5)]
+    for a, b in near:
+        for op in ('==', '!=', '<', '<=', '>', '>='):
+            for x, y in ((a, b), (b, a)):
+                tree = ('bin', op, ('num', x), ('num', y))
+                if op in ('==', '!='):
+                    tree_alt = ('bin', op, ('bin', '/', ('num', x * 2), ('num', 2)), ('num', y))
+                else:
+                    tree_alt = tree
+                for t_ in (tree, tree_alt):
+                    want = tree_value(t_, ENV0, ROUTINES)
+                    for pos in ('print', 'if', 'while'):
+                        body, mode = position_script(pos, t_)
+                        c = progcheck.Case(PRELUDE_AST + body, pop, label=pos)
+                        c.tree, c.want, c.mode, c.depth = t_, want, mode, 1
+                        cases.append(c)
+                        stats['by_position']['near-' + pos] = stats['by_position'].get('near-' + pos, 0) + 1
     stats['expressions'] = len(cases)
     # 1. the documented value, directly on the real code
     for c in cases:
